@@ -13,7 +13,8 @@ Definition assocs_ok (c : cx) (a : assocs) : Prop :=
   assoc_vals_ok (is_struct c) (a_boss a) /\ assoc_vals_ok false (a_kids a) /\ assoc_vals_ok false (a_pets a)
   /\ (is_struct c = true ->
         uniform_phase struct_shape (boss_t a) (fc_hooks PBeforeCreate)
-        /\ uniform_phase struct_shape (boss_t a) (fc_hooks PAfterCreate)).
+        /\ uniform_phase struct_shape (boss_t a) (fc_hooks PAfterCreate))
+  /\ a_keepers a = [].          (* graphs whose association values carry associations of their own: correspondence only *)
 
 Definition before_sched (c : cx) (a : assocs) := assoc_sched c (boss_t a) TBosses (is_struct c) (a_boss a).
 Definition after_sched (c : cx) (a : assocs) :=
@@ -22,7 +23,7 @@ Definition after_sched (c : cx) (a : assocs) :=
 Lemma save_before_step : forall c a s, assocs_ok c a ->
   hstep (c_fails c) s (save_before_assoc c a s) (gated s (sched_log (before_sched c a) (s_k s) (c_fails c))).
 Proof.
-  intros c a s (B & _ & _ & U). unfold save_before_assoc, before_sched.
+  intros c a s (B & _ & _ & U & _). unfold save_before_assoc, before_sched.
   destruct (is_nil (s_err s)) eqn:E.
   - apply save_assoc_step; assumption.
   - unfold gated. rewrite E. apply hstep_quiet; reflexivity.
@@ -31,7 +32,7 @@ Qed.
 Lemma save_after_step : forall c a s, assocs_ok c a ->
   hstep (c_fails c) s (save_after_assoc c a s) (gated s (sched_log (after_sched c a) (s_k s) (c_fails c))).
 Proof.
-  intros c a s (_ & K & P & _). unfold save_after_assoc, after_sched.
+  intros c a s (_ & K & P & _ & NK). unfold save_after_assoc, after_sched. rewrite NK. cbn [is_nil].
   destruct (is_nil (s_err s)) eqn:E.
   - eapply hstep_seq.
     + apply save_assoc_step; [exact K | intro X; discriminate].
